@@ -23,6 +23,7 @@ use std::{
     num::NonZeroU16,
     os::fd::{AsRawFd, FromRawFd, IntoRawFd, RawFd},
     pin::Pin,
+    rc::Rc,
     ptr::NonNull,
     task::{Context, Poll, Waker},
     time::{Duration, Instant},
@@ -140,12 +141,13 @@ impl SrcKind {
     }
 }
 
+#[derive(Clone)]
 enum Rx {
-    Pipe(Box<compio_fs::pipe::Receiver>),
-    Tcp(Box<compio_net::TcpStream>),
-    Unix(Box<compio_net::UnixStream>),
-    Udp(Box<compio_net::UdpSocket>),
-    File(Box<compio_fs::File>),
+    Pipe(Rc<compio_fs::pipe::Receiver>),
+    Tcp(Rc<compio_net::TcpStream>),
+    Unix(Rc<compio_net::UnixStream>),
+    Udp(Rc<compio_net::UdpSocket>),
+    File(Rc<compio_fs::File>),
 }
 
 enum Tx {
@@ -165,6 +167,11 @@ struct Src {
     strm: Option<Strm>,
     kind: SrcKind,
     rx: Rx,
+    /// index of the source that owns the endpoint (`tx`, the sent-data oracle); differs from the own
+    /// index for an `alias` = a second logical reader on the SAME fd
+    base: usize,
+    /// token the single-shot future was created with (`with_cancel`)
+    token: Option<compio_runtime::CancelToken>,
     /// boxed `&Receiver` etc. that `read_multi(&mut self)` borrows from (freed after the stream)
     refs: Vec<Box<dyn std::any::Any>>,
     tx: Tx,
@@ -407,24 +414,24 @@ fn make_src(sys: &Sys, kind: SrcKind, idx: usize, size: usize) -> io::Result<Src
                     set_nonblock(rfd);
                 }
                 let wf = unsafe { std::fs::File::from_raw_fd(w.into_raw_fd()) };
-                (Rx::Pipe(Box::new(unsafe { compio_fs::pipe::Receiver::from_raw_fd(rfd) })), Tx::Pipe(wf), vec![])
+                (Rx::Pipe(Rc::new(unsafe { compio_fs::pipe::Receiver::from_raw_fd(rfd) })), Tx::Pipe(wf), vec![])
             }
             SrcKind::Tcp => {
                 let l = std::net::TcpListener::bind("127.0.0.1:0")?;
                 let w = std::net::TcpStream::connect(l.local_addr()?)?;
                 let (r, _) = l.accept()?;
                 w.set_nodelay(true)?;
-                (Rx::Tcp(Box::new(compio_net::TcpStream::from_std(r)?)), Tx::Tcp(w), vec![])
+                (Rx::Tcp(Rc::new(compio_net::TcpStream::from_std(r)?)), Tx::Tcp(w), vec![])
             }
             SrcKind::Unix => {
                 let (r, w) = std::os::unix::net::UnixStream::pair()?;
-                (Rx::Unix(Box::new(compio_net::UnixStream::from_std(r)?)), Tx::Unix(w), vec![])
+                (Rx::Unix(Rc::new(compio_net::UnixStream::from_std(r)?)), Tx::Unix(w), vec![])
             }
             SrcKind::Udp => {
                 let r = std::net::UdpSocket::bind("127.0.0.1:0")?;
                 let w = std::net::UdpSocket::bind("127.0.0.1:0")?;
                 w.connect(r.local_addr()?)?;
-                (Rx::Udp(Box::new(compio_net::UdpSocket::from_std(r)?)), Tx::Udp(w), vec![])
+                (Rx::Udp(Rc::new(compio_net::UdpSocket::from_std(r)?)), Tx::Udp(w), vec![])
             }
             SrcKind::File => {
                 let path = std::env::temp_dir().join(format!("hx-c07-{}-{}", std::process::id(), idx));
@@ -432,7 +439,7 @@ fn make_src(sys: &Sys, kind: SrcKind, idx: usize, size: usize) -> io::Result<Src
                 std::fs::write(&path, &content)?;
                 let f = std::fs::File::open(&path)?;
                 let _ = std::fs::remove_file(&path);
-                (Rx::File(Box::new(unsafe { compio_fs::File::from_raw_fd(f.into_raw_fd()) })), Tx::None, content)
+                (Rx::File(Rc::new(unsafe { compio_fs::File::from_raw_fd(f.into_raw_fd()) })), Tx::None, content)
             }
         })
     })?;
@@ -441,6 +448,8 @@ fn make_src(sys: &Sys, kind: SrcKind, idx: usize, size: usize) -> io::Result<Src
         strm: None,
         kind,
         rx,
+        base: idx,
+        token: None,
         refs: vec![],
         tx,
         sent,
@@ -451,7 +460,7 @@ fn make_src(sys: &Sys, kind: SrcKind, idx: usize, size: usize) -> io::Result<Src
     })
 }
 
-/// extend a reference to a boxed endpoint to 'static: the box lives in `Src::rx` and is dropped after
+/// extend a reference to a ref-counted endpoint to 'static: a clone of the `Rc` lives in `Src::rx` and is dropped after
 /// `Src::fut` / `Src::strm` (field order), and is never moved out while they exist
 unsafe fn extend<T>(r: &T) -> &'static T {
     unsafe { &*(r as *const T) }
@@ -531,6 +540,8 @@ fn err_name(e: &io::Error) -> String {
         io::ErrorKind::ResourceBusy => "busy".into(),
         io::ErrorKind::Unsupported => "unsupported".into(),
         io::ErrorKind::UnexpectedEof => "eof".into(),
+        io::ErrorKind::TimedOut => "cancelled".into(),
+        _ if e.raw_os_error() == Some(libc::ECANCELED) => "cancelled".into(),
         io::ErrorKind::Other => "other".into(),
         k => format!("{k:?}"),
     }
@@ -588,6 +599,7 @@ impl Runner<'_> {
             fail(self.ex, &self.tainted, "C07:identity", format!("handle capacity {cap} exceeds the buffer length {}", sys.buflen));
         }
         // M3: content is the next part of what was sent to that source
+        let src = src.map(|si| sys.srcs.get(si).and_then(|x| x.as_ref()).map_or(si, |x| x.base));
         if let Some(si) = src
             && let Some(Some(s)) = sys.srcs.get_mut(si)
         {
@@ -651,7 +663,8 @@ impl Runner<'_> {
             Poll::Pending => ("pending".to_string(), true),
             Poll::Ready(None) => ("end".to_string(), false),
             Poll::Ready(Some(Err(e))) => {
-                s.lossy = true;
+                let b = s.base;
+                s_lossy(sys, b);
                 (format!("err {}", err_name(&e)), false)
             }
             Poll::Ready(Some(Ok(b))) => (format!("item {}", self.acquire(b, Some(i))), false),
@@ -749,6 +762,27 @@ impl Runner<'_> {
                 fail(self.ex, &self.tainted, "C07:owner", format!("buffer {id} is owned by the pool/kernel but its slot is empty"));
             }
         }
+        // M7: pool accounting at every step where the harness knows exactly what the ops may hold: no stream is
+        // alive, and either no future is alive (ring) or every live future owns exactly one buffer (fallback
+        // pool: popped at creation, released when the op's last key reference is released)
+        let live_futs = sys.srcs.iter().flatten().filter(|s| s.fut.is_some()).count();
+        let live_strms = sys.srcs.iter().flatten().filter(|s| s.strm.is_some()).count();
+        if live_strms == 0 && (!sys.ring || live_futs == 0) {
+            let in_ops = if sys.ring { 0 } else { live_futs };
+            let free = owned.len();
+            if free + sys.held.len() + in_ops != snap.slots.len() {
+                fail(
+                    self.ex,
+                    &self.tainted,
+                    "C07:buffer-lost",
+                    format!(
+                        "pool of {}: {free} free/provided + {} held by handles + {in_ops} inside live operations; the rest is owned by nobody the program knows of (a cancelled or finished operation still owns a buffer)",
+                        snap.slots.len(),
+                        sys.held.len()
+                    ),
+                );
+            }
+        }
         if sys.ring && snap.tail.wrapping_sub(snap.head) as usize > snap.ring_len {
             fail(self.ex, &self.tainted, "C07:ring-overflow", format!("tail {} - head {} exceeds ring length {}", snap.tail, snap.head, snap.ring_len));
         }
@@ -825,11 +859,12 @@ impl Runner<'_> {
                     return "bad".into();
                 }
                 let sys = self.sys.as_mut().unwrap();
-                let s = sys.srcs[i].as_mut().unwrap();
+                let b = sys.srcs[i].as_ref().unwrap().base;
+                let s = sys.srcs[b].as_mut().unwrap();
                 if matches!(s.tx, Tx::None) {
                     return "bad".into();
                 }
-                let data: Vec<u8> = (0..k as u64).map(|j| pattern(i, s.seq + j)).collect();
+                let data: Vec<u8> = (0..k as u64).map(|j| pattern(b, s.seq + j)).collect();
                 s.seq += k as u64;
                 let r = match &mut s.tx {
                     Tx::Pipe(f) => f.write_all(&data),
@@ -848,13 +883,44 @@ impl Runner<'_> {
                 }
                 self.finish_line("ok".into())
             }
+            ["alias", j, i] => {
+                // a second logical reader on the SAME endpoint (same compio object, same fd) as source `i`
+                let (Ok(j), Ok(i)) = (j.parse::<usize>(), i.parse::<usize>()) else { return "bad".into() };
+                if !self.src_ok(i) {
+                    return "bad".into();
+                }
+                let sys = self.sys.as_mut().unwrap();
+                let s = sys.srcs[i].as_ref().unwrap();
+                if j != sys.srcs.len() || j >= 8 || s.kind == SrcKind::File {
+                    return "bad".into();
+                }
+                let a = Src {
+                    fut: None,
+                    strm: None,
+                    kind: s.kind,
+                    rx: s.rx.clone(),
+                    base: s.base,
+                    token: None,
+                    refs: vec![],
+                    tx: Tx::None,
+                    sent: vec![],
+                    rpos: 0,
+                    dgrams: VecDeque::new(),
+                    lossy: false,
+                    seq: 0,
+                };
+                sys.srcs.push(Some(a));
+                self.ex.tag("alias:concurrent-readers-on-one-fd");
+                self.finish_line("ok".into())
+            }
             ["close", i] => {
                 let Ok(i) = i.parse::<usize>() else { return "bad".into() };
                 if !self.src_ok(i) {
                     return "bad".into();
                 }
                 let sys = self.sys.as_mut().unwrap();
-                let s = sys.srcs[i].as_mut().unwrap();
+                let b = sys.srcs[i].as_ref().unwrap().base;
+                let s = sys.srcs[b].as_mut().unwrap();
                 if !s.kind.is_stream() || matches!(s.tx, Tx::None) {
                     return "bad".into();
                 }
@@ -879,8 +945,11 @@ impl Runner<'_> {
                 if s.fut.is_some() || s.strm.is_some() || (s.kind == SrcKind::File) != (w.len() == 4) {
                     return "bad".into();
                 }
-                let mut fut = start_read(s, len, pos);
                 let rt = sys.rt.as_ref().unwrap();
+                let token = rt.enter(compio_runtime::CancelToken::new);
+                let inner = start_read(s, len, pos);
+                let mut fut: Fut = Box::pin(compio_runtime::FutureExt::with_cancel(inner, token.clone()));
+                s.token = Some(token);
                 let mut cx = noop_cx();
                 let first = rt.enter(|| fut.as_mut().poll(&mut cx));
                 match first {
@@ -928,13 +997,52 @@ impl Runner<'_> {
                 let mut cx = noop_cx();
                 let p = sys.rt.as_ref().unwrap().enter(|| fut.as_mut().poll(&mut cx));
                 match p {
-                    Poll::Pending => self.finish_line("pending".into()),
+                    Poll::Pending => {
+                        // M8: the only live reader of this endpoint is still waiting although data that was
+                        // written is neither in the kernel any more nor in anybody's hands
+                        let b = s.base;
+                        let others = sys
+                            .srcs
+                            .iter()
+                            .enumerate()
+                            .filter(|(j, x)| *j != i && x.as_ref().is_some_and(|x| x.base == b && (x.fut.is_some() || x.strm.is_some())))
+                            .count();
+                        let bs = sys.srcs[b].as_ref().unwrap();
+                        let missing = !bs.lossy && (bs.sent.len() > bs.rpos || !bs.dgrams.is_empty()) && bs.kind != SrcKind::File;
+                        if missing && others == 0 && !self.readable(i) {
+                            fail(
+                                self.ex,
+                                &self.tainted,
+                                "C07:data-to-dead-op",
+                                format!("source {i}: data was sent, it is not pending in the kernel, no live reader has it, and the only live reader is still Pending: a dead (cancelled) operation consumed it"),
+                            );
+                        }
+                        self.finish_line("pending".into())
+                    }
                     Poll::Ready(r) => {
                         s.fut = None;
+                        s.token = None;
                         let res = self.ready_result(r, Some(i), "ready");
                         self.finish_line(res)
                     }
                 }
+            }
+            ["tcancel", i] => {
+                // `CancelToken::cancel`: the op is cancelled, the future stays and reports it
+                let Ok(i) = i.parse::<usize>() else { return "bad".into() };
+                if !self.src_ok(i) {
+                    return "bad".into();
+                }
+                let sys = self.sys.as_mut().unwrap();
+                let s = sys.srcs[i].as_mut().unwrap();
+                if s.fut.is_none() {
+                    return "bad".into();
+                }
+                if let Some(t) = s.token.take() {
+                    sys.rt.as_ref().unwrap().enter(|| t.cancel());
+                }
+                self.ex.tag("cancel:token");
+                self.finish_line("ok".into())
             }
             ["cancel", i] => {
                 let Ok(i) = i.parse::<usize>() else { return "bad".into() };
@@ -944,7 +1052,13 @@ impl Runner<'_> {
                 let sys = self.sys.as_mut().unwrap();
                 let s = sys.srcs[i].as_mut().unwrap();
                 let Some(fut) = s.fut.take() else { return "bad".into() };
-                s.lossy = true;
+                s.token = None;
+                let b = s.base;
+                // the dropped op can only have swallowed data if some data is unaccounted for
+                let bs = sys.srcs[b].as_mut().unwrap();
+                if bs.sent.len() != bs.rpos || !bs.dgrams.is_empty() {
+                    bs.lossy = true;
+                }
                 sys.rt.as_ref().unwrap().enter(|| drop(fut));
                 self.finish_line("ok".into())
             }
@@ -1010,7 +1124,11 @@ impl Runner<'_> {
                 let sys = self.sys.as_mut().unwrap();
                 let s = sys.srcs[i].as_mut().unwrap();
                 let Some(st) = s.strm.take() else { return "bad".into() };
-                s.lossy = true;
+                let b = s.base;
+                let bs = sys.srcs[b].as_mut().unwrap();
+                if bs.sent.len() != bs.rpos || !bs.dgrams.is_empty() {
+                    bs.lossy = true;
+                }
                 sys.rt.as_ref().unwrap().enter(|| drop(st));
                 self.finish_line("ok".into())
             }
@@ -1233,10 +1351,12 @@ impl Runner<'_> {
             Ok(Some(b)) => format!("{tag} some {}", self.acquire(b, src)),
             Ok(None) => format!("{tag} none"),
             Err(e) => {
-                if let Some(i) = src
-                    && let Some(Some(s)) = self.sys.as_mut().unwrap().srcs.get_mut(i)
-                {
-                    s.lossy = true;
+                if let Some(i) = src {
+                    let sys = self.sys.as_mut().unwrap();
+                    if let Some(Some(s)) = sys.srcs.get(i) {
+                        let b = s.base;
+                        s_lossy(sys, b);
+                    }
                 }
                 format!("{tag} err {}", err_name(&e))
             }
@@ -1740,6 +1860,75 @@ fn gen_stream_exhaust(rng: &mut Rng, kind: &str, n: u64, len: u64, sk: &str) -> 
     lines
 }
 
+/// k concurrent managed reads on ONE fd (aliases of source 0), the `ci`-th is cancelled by the given route
+/// while the others keep waiting; the cancelled op must release its buffer whatever its position in the
+/// driver's wait queue, a fresh read must get a buffer, and data sent afterwards must reach the live readers
+/// (polling driver: in FIFO order; io_uring: after all but one were cancelled, the survivor)
+fn gen_concurrent(rng: &mut Rng, kind: &str, sk: &str, k: usize, ci: usize, token: bool, exact_pool: bool) -> Vec<String> {
+    let len = *rng.pick(&[8u64, 16, 32]);
+    let n = if exact_pool { k as u64 } else { k as u64 + 1 + rng.below(4) };
+    let mut lines = vec![format!("init {kind} {n} {len}"), format!("src 0 {sk} 0")];
+    for a in 1..=k {
+        lines.push(format!("alias {a} 0"));
+    }
+    // one of the waiters may be a multishot stream (polling driver only: there it is an ordinary waiter)
+    let mpos = if kind == "fb" && rng.chance(1, 3) { Some(rng.below(k as u64) as usize) } else { None };
+    let is_stream = |r: usize| mpos == Some(r);
+    for r in 0..k {
+        if is_stream(r) {
+            lines.push(format!("open {r} 0"));
+            lines.push(format!("next {r}"));
+        } else {
+            lines.push(format!("read {r} 0"));
+        }
+    }
+    let mut live: Vec<usize> = (0..k).collect();
+    let cancel_one = |lines: &mut Vec<String>, rng: &mut Rng, r: usize, token: bool| {
+        if is_stream(r) {
+            lines.push(format!("dstream {r}"));
+        } else if token {
+            lines.push(format!("tcancel {r}"));
+            if rng.chance(1, 2) {
+                lines.push(format!("tcancel {r}"));
+            }
+            lines.push(format!("await {r}"));
+        } else {
+            lines.push(format!("cancel {r}"));
+        }
+    };
+    cancel_one(&mut lines, rng, ci, token);
+    live.retain(|x| *x != ci);
+    // a fresh read must obtain a buffer (with `exact_pool` it is the one the cancelled op gave back)
+    lines.push(format!("read {k} 0"));
+    live.push(k);
+    if kind == "ring" {
+        // which of several waiters io_uring serves first is not specified: leave one
+        while live.len() > 1 {
+            let j = rng.below(live.len() as u64) as usize;
+            let r = live.remove(j);
+            let t = rng.chance(1, 2);
+            cancel_one(&mut lines, rng, r, t);
+        }
+    }
+    for r in live.clone() {
+        lines.push(format!("write {r} {}", rng.range(1, len)));
+        if is_stream(r) {
+            lines.push(format!("nextw {r}"));
+            lines.push(format!("dstream {r}"));
+        } else {
+            lines.push(format!("await {r}"));
+        }
+    }
+    for _ in 0..live.len() {
+        lines.push(format!("dropn {}", rng.below(4)));
+    }
+    // the endpoint still works
+    lines.push("read 0 0".into());
+    lines.push("write 0 2".into());
+    lines.push("await 0".into());
+    lines
+}
+
 /// the u16 tail of the ring wraps around while buffers are held and streams are open
 fn gen_wrap(rng: &mut Rng, n: u64, len: u64) -> Vec<String> {
     let mut lines = vec![format!("init ring {n} {len}"), "src 0 pipe 0".to_string(), "src 1 pipe 0".to_string()];
@@ -1893,6 +2082,35 @@ fn generate(tier: &str, rng: &mut Rng) -> Vec<Case> {
                 let n = if rep == 0 { [1, 2, 4, 8][c] } else { rng.range(1, 16) };
                 let len = *rng.pick(&lens[..4]);
                 cases.push(Case { name: format!("cancel-race-{kind}-{sk}-{rep}"), lines: gen_cancel_race(rng, kind, n, len, sk) });
+            }
+        }
+    }
+    // concurrent managed reads on one fd, one of them cancelled at every queue position by every route
+    let mut cc = 0;
+    for kind in ["fb", "ring"] {
+        if kind == "ring" && !ring_ok {
+            continue;
+        }
+        for sk in ["tcp", "unix", "udp", "pipe"] {
+            for k in [2usize, 3] {
+                for ci in 0..k {
+                    for token in [false, true] {
+                        let reps = if thorough { 4 } else { 1 };
+                        for rep in 0..reps {
+                            // quick: every (driver, k, position, route) once per two source kinds
+                            if !thorough && (cc + sk.len()) % 2 == 0 && kind == "ring" {
+                                cc += 1;
+                                continue;
+                            }
+                            cc += 1;
+                            let exact = k == 2 && rep % 2 == 0;
+                            cases.push(Case {
+                                name: format!("concurrent-{kind}-{sk}-k{k}-c{ci}-{}-{rep}", if token { "token" } else { "drop" }),
+                                lines: gen_concurrent(rng, kind, sk, k, ci, token, exact),
+                            });
+                        }
+                    }
+                }
             }
         }
     }
